@@ -188,16 +188,8 @@ func buildIter(params json.RawMessage) explore.Scenario {
 					return o
 				}
 			}
-			if s.HitHorizon {
-				o.Inconclusive = true
-				return o
-			}
-			if haltCalled && halted == nil {
-				o.Violation, o.Msg = "C15/halt-stuck", "Halt never returned: "+strings.Join(s.Blocked, ",")
-				return o
-			}
-			// how the stream must end
-			stopDepth := 0 // depth at which the analysis must end by itself, 0 = never
+			// where the analysis must end by itself (0 = never)
+			stopDepth := 0
 			for d := 1; d <= 6; d++ {
 				score, _ := direct(p.FEN, d)
 				if md, ok := score.MateDistance(); ok && int(md) <= d {
@@ -209,6 +201,19 @@ func buildIter(params json.RawMessage) explore.Scenario {
 					break
 				}
 			}
+			if stopDepth > 0 && last > stopDepth {
+				o.Violation, o.Msg = "C15/overran", fmt.Sprintf("the analysis went on to depth %d although it must end by itself at depth %d (depth limit or forced mate within the depth)", last, stopDepth)
+				return o
+			}
+			if s.HitHorizon {
+				o.Inconclusive = true
+				return o
+			}
+			if haltCalled && halted == nil {
+				o.Violation, o.Msg = "C15/halt-stuck", "Halt never returned: "+strings.Join(s.Blocked, ",")
+				return o
+			}
+			// how the stream must end
 			externallyStopped := haltCalled || p.Time // a halter or the hard-limit timer / soft limit may end it
 			if closed && !externallyStopped {
 				if stopDepth == 0 {
@@ -219,10 +224,6 @@ func buildIter(params json.RawMessage) explore.Scenario {
 					o.Violation, o.Msg = "C15/wrong-end", fmt.Sprintf("the analysis ended by itself after depths %s; it must end exactly at depth %d", strings.Join(ds, ","), stopDepth)
 					return o
 				}
-			}
-			if closed && stopDepth > 0 && last > stopDepth {
-				o.Violation, o.Msg = "C15/overran", fmt.Sprintf("the analysis went on to depth %d past its end at depth %d", last, stopDepth)
-				return o
 			}
 			if !closed && !s.HitHorizon {
 				// quiescent but the stream is still open
@@ -247,7 +248,10 @@ func init() {
 		ID:   "C15",
 		Rule: "real searchctl.Iterative.Launch on small roots (K v K, fortress, checkmated, stalemated, mate-in-1 net) x depth limit {none,1,2,3} x table {off,on} x time control {none, given}; threads: the iterative-deepening goroutine, its quit-cancel goroutine, a consumer, a halter whose Halt becomes enabled at scheduler step k for a grid of k over the whole run (halt instant enumerated), the hard-limit timer (release step enumerated), the search / quit-cancel / consumer goroutine in turn held back for 60 steps after the halt instant (slow-thread dimension) and, with a time control, every time.Since answered 'short' or 'longer than any limit' (environment deviation); all schedules within the deviation bound. Oracle: reported depths strictly increasing; every reported and every Halt-returned (score, PV with table off) equals a direct fixed-depth search; ends by itself exactly at the depth limit or at the first depth with a forced mate within the depth, never earlier, never without a reason; Halt returns a completed iteration >= 1 at least as deep as everything reported before it was requested. Plus the complete grid of TimeControl.Limits (sequential). distinct_nontrivial = distinct (depth stream, halt result) classes",
 		Gen: func(tier string) []explore.Scenario {
-			roots := []string{kP1, kFortress, kMated, kStale, "7k/8/5K2/6Q1/8/8/8/8 b - - 0 1"}
+			roots := []string{kP1, kFortress, kMated, kStale, "7k/8/5K2/6Q1/8/8/8/8 b - - 0 1",
+				"7k/8/6K1/8/8/8/8/R7 b - - 0 1",  // the side to move is mated in 2: the analysis must end at depth 3
+				"6k1/8/6K1/8/8/8/8/R7 w - - 0 1", // the side to move mates in 1: must end at depth 2
+			}
 			var out []explore.Scenario
 			for _, f := range roots {
 				for _, limit := range []int{0, 1, 2, 3} {
